@@ -76,7 +76,7 @@ def run(chk, model_ok=True):
     accepted_classes = {}
     dropped_classes = {}
     reproduced = {}
-    rounds = 1 if quick else 12
+    rounds = 3 if quick else 72
     for rnd in range(rounds):
         for auth in (1, 2):
             for priv in (0, 1, 2):
@@ -115,7 +115,7 @@ def run(chk, model_ok=True):
                                         chk.notes.append(f"legitimate reply {cls} was not delivered: {r}")
                 # accept_partial: a forgery that ALSO mismatches must never be delivered
                 from props.c04 import near_bytes, near_ints
-                for field in ("user", "engine_id", "msg_id", "request_id") * (3 if quick else 8):
+                for field in ("user", "engine_id", "msg_id", "request_id") * (9 if quick else 48):
                     rec = s.send("get", "1.3.6.1")
                     req = s.conv.req
                     if rec["result"][0] != "ok" or not req or "request_id" not in req:
